@@ -417,8 +417,27 @@ def r20_5(chk, fe):
                     head, _, rest = src.partition(".")
                     full = fe.ctx.alias.get(src) or ((fe.ctx.alias.get(head, head) + "." + rest) if rest else fe.ctx.alias.get(head, head))
                     regs[nm][k.value] = full
+        if isinstance(node, ast.DictComp) and len(node.generators) == 1 and not node.generators[0].ifs:
+            # {name: batch for name, _, batch in _GENERATORS}: the rows of a module-level literal table, written out
+            import copy
+            from ..normalise import _destructure, _Replace
+            g = node.generators[0]
+            src = g.iter
+            if isinstance(src, ast.Name) and src.id in fe.ctx.consts:
+                src = fe.ctx.consts[src.id]
+            if isinstance(src, (ast.Tuple, ast.List)):
+                keys, vals = [], []
+                for row in src.elts:
+                    m = {}
+                    if not _destructure(g.target, row, m):
+                        keys = None
+                        break
+                    keys.append(_Replace(m).visit(copy.deepcopy(node.key)))
+                    vals.append(_Replace(m).visit(copy.deepcopy(node.value)))
+                if keys is not None and all(isinstance(k, ast.Constant) for k in keys):
+                    node = ast.Dict(keys=keys, values=vals)
         if isinstance(node, ast.Dict):
-            regs[nm] = {k.value: fe.ctx.alias.get(fe.seg(v), fe.seg(v)) for k, v in zip(node.keys, node.values)}
+            regs[nm] = {k.value: fe.ctx.alias.get(ast.unparse(v), ast.unparse(v)) for k, v in zip(node.keys, node.values)}
     # what do the public names denote in this module: the compiled generators, or Python wrappers around them?
     for name, full in sorted(COMPILED.items()):
         if name in fe.funcs:
@@ -478,6 +497,28 @@ def r20_5(chk, fe):
                 g = generator_of(call[1], k)
                 if g is not None:
                     resolved[truth].setdefault(k, []).append((e, g, call[2], va is not call))
+    # the names the registries and the module export are the compiled generators themselves: no module-level statement rebinds a name
+    # imported from ._sobol / ._lds (a wrapper installed under the generator's name answers differently from the generator for some seeds)
+    imported = {}
+    for st in fe.tree.body:
+        if isinstance(st, ast.ImportFrom) and st.module and st.module.lstrip(".").split(".")[-1] in ("_sobol", "_lds"):
+            for a_ in st.names:
+                imported[a_.asname or a_.name] = st.module
+    rebound = []
+    for st in fe.tree.body:
+        tg = []
+        if isinstance(st, (ast.Assign, ast.AugAssign, ast.AnnAssign)):
+            tg = [t for t in (st.targets if isinstance(st, ast.Assign) else [st.target])]
+        elif isinstance(st, (ast.FunctionDef, ast.ClassDef)):
+            if st.name in imported:
+                rebound.append((st, st.name))
+        for t in tg:
+            for n_ in ast.walk(t):
+                if isinstance(n_, ast.Name) and n_.id in imported:
+                    rebound.append((st, n_.id))
+    chk.ob("R20.5", FE, "<module>", "the generator names exported by chmpy.sampling are the compiled generators (no module-level rebinding / wrapping "
+           "under the same name)", bool(imported) and not rebound, node=rebound[0][0] if rebound else None, fingerprint="exports-compiled",
+           found=[f"line {st.lineno}: {nm} = {ast.unparse(st.value)[:60] if hasattr(st, 'value') and st.value is not None else 'def'}" for st, nm in rebound][:2])
     ks, kb = set(resolved[True]), set(resolved[False])
     chk.ob("R20.5", FE, "_SINGLE", "single and batch registries have the same keys", ks == kb and bool(ks), found=f"{sorted(ks)} vs {sorted(kb)}")
     for k in sorted(ks | kb):
